@@ -68,10 +68,17 @@ Fixpoint zip_add (a b : list Z) : list Z :=
   end.
 Definition add_scores (a b : scores) : scores := (zip_add (fst a) (fst b), zip_add (snd a) (snd b)).
 
+(* Issue.__init__: text.encode("utf-8", "backslashreplace").decode("utf-8") - lone surrogates become '\udXXX' *)
+Definition hexd (d : N) : N := if (d <? 10)%N then (48 + d)%N else (87 + d)%N.
+Definition sanitize_text (s : pstr) : pstr :=
+  flat_map (fun c => if ((55296 <=? c) && (c <=? 57343))%N
+                     then [92; 117; hexd (c / 4096 mod 16); hexd (c / 256 mod 16); hexd (c / 16 mod 16); hexd (c mod 16)]%N
+                     else [c]) s.
+
 Definition fill_defaults (t : test) (c : ctx) (r : rissue) : finding :=
   Finding
     (match ri_test_id r with Some i => i | None => t_id t end)
-    (t_name t) (ri_sev r) (ri_conf r) (ri_cwe r) (ri_text r)
+    (t_name t) (ri_sev r) (ri_conf r) (ri_cwe r) (sanitize_text (ri_text r))
     (match ri_lineno r with Some l => l | None => match c_lineno c with Some l => l | None => 0%Z end end)
     (match ri_linerange r with Some l => l | None => c_linerange c end)
     (match ri_col r with Some x => x | None => match c_col c with Some x => x | None => 0%Z end end)
